@@ -473,6 +473,11 @@ func (x *Exec) violate(kind, msg, pos string) {
 
 func (x *Exec) assert(c *Term, msg string, pos string) {
 	if c.IsTrue() {
+		if !x.replaying() {
+			// decided by constant folding / concrete evaluation on this path
+			x.h.Obligations++
+			x.h.Discharged++
+		}
 		return
 	}
 	if x.replaying() {
